@@ -152,6 +152,119 @@ fn corpus(rng: &mut ChaChaRng) -> Vec<(&'static str, Vec<u8>)> {
     out
 }
 
+// ---- independent re-verification of the inclusion proofs an accepted block carries ("proofs verify against the header")
+
+fn rfc_leaf(d: &[u8]) -> [u8; 32] {
+    use sha2::Digest as _;
+    let mut h = sha2::Sha256::new();
+    h.update([0u8]);
+    h.update(d);
+    h.finalize().into()
+}
+
+fn rfc_node(l: &[u8; 32], r: &[u8; 32]) -> [u8; 32] {
+    use sha2::Digest as _;
+    let mut h = sha2::Sha256::new();
+    h.update([1u8]);
+    h.update(l);
+    h.update(r);
+    h.finalize().into()
+}
+
+/// RFC 6962 Merkle tree hash (independent of astria-merkle).
+fn rfc_mth<T: AsRef<[u8]>>(l: &[T]) -> [u8; 32] {
+    use sha2::Digest as _;
+    match l.len() {
+        0 => sha2::Sha256::digest([]).into(),
+        1 => rfc_leaf(l[0].as_ref()),
+        n => {
+            let mut k = 1;
+            while k * 2 < n {
+                k *= 2;
+            }
+            rfc_node(&rfc_mth(&l[..k]), &rfc_mth(&l[k..]))
+        }
+    }
+}
+
+/// RFC 9162 2.1.3.2 inclusion-proof verification. `nodes` is astria-merkle's tree size (2 * leaves - 1); `None` if it is
+/// not of that form (then only the library's own verification is consulted).
+fn rfc_verify(leaf: &[u8], index: usize, nodes: usize, path: &[u8], root: &[u8; 32]) -> Option<bool> {
+    if nodes % 2 == 0 || path.len() % 32 != 0 {
+        return None;
+    }
+    let leaves = nodes / 2 + 1;
+    if index >= leaves {
+        return Some(false);
+    }
+    let (mut f, mut s) = (index, leaves - 1);
+    let mut r = rfc_leaf(leaf);
+    for p in path.chunks(32) {
+        let p: [u8; 32] = p.try_into().unwrap();
+        if s == 0 {
+            return Some(false);
+        }
+        if f & 1 == 1 || f == s {
+            r = rfc_node(&p, &r);
+            if f & 1 == 0 {
+                while f & 1 == 0 && f != 0 {
+                    f >>= 1;
+                    s >>= 1;
+                }
+            }
+        } else {
+            r = rfc_node(&r, &p);
+        }
+        f >>= 1;
+        s >>= 1;
+    }
+    Some(s == 0 && &r == root)
+}
+
+static LIB_ACCEPTS_RFC_REJECTS: std::sync::atomic::AtomicU64 = std::sync::atomic::AtomicU64::new(0);
+static PROOFS_REVERIFIED: std::sync::atomic::AtomicU64 = std::sync::atomic::AtomicU64::new(0);
+
+/// The type's stated check is the library's `Proof::verify` against the header's root: it must hold again on whatever was
+/// accepted (a decoder that skips or weakens the check is what this catches). The independent RFC 9162 verification is
+/// recorded next to it but not judged: astria-merkle accepts a proof that claims a larger tree than the real one as long as
+/// the hash chain reaches the root (the leaf is still bound to the root), which RFC 9162 would reject.
+fn proof_ok(proof: &astria_merkle::Proof, leaf: &[u8], root: [u8; 32]) -> bool {
+    use std::sync::atomic::Ordering;
+    let lib = proof.verify(leaf, root);
+    PROOFS_REVERIFIED.fetch_add(1, Ordering::Relaxed);
+    if lib && rfc_verify(leaf, proof.leaf_index(), proof.tree_size().get(), proof.audit_path(), &root) == Some(false) {
+        LIB_ACCEPTS_RFC_REJECTS.fetch_add(1, Ordering::Relaxed);
+    }
+    lib
+}
+
+fn rollup_proofs_ok<'a>(
+    rollups: impl Iterator<Item = &'a astria_core::sequencerblock::v1::block::RollupTransactions>,
+    rollup_transactions_root: [u8; 32],
+) -> bool {
+    for rt in rollups {
+        let mut leaf = rt.rollup_id().as_ref().to_vec();
+        leaf.extend_from_slice(&rfc_mth(rt.transactions()));
+        if !proof_ok(rt.proof(), &leaf, rollup_transactions_root) {
+            return false;
+        }
+    }
+    true
+}
+
+fn top_level_proofs_ok(
+    rollup_transactions_root: [u8; 32],
+    rollup_transactions_proof: &astria_merkle::Proof,
+    all_ids: &[astria_core::primitive::v1::RollupId],
+    rollup_ids_proof: &astria_merkle::Proof,
+    data_hash: [u8; 32],
+) -> bool {
+    use sha2::Digest as _;
+    let ids_root = rfc_mth(&all_ids.iter().map(|i| i.as_ref().to_vec()).collect::<Vec<_>>());
+    proof_ok(rollup_transactions_proof, &sha2::Sha256::digest(rollup_transactions_root), data_hash)
+        && proof_ok(rollup_ids_proof, &sha2::Sha256::digest(ids_root), data_hash)
+}
+
 /// Runs one entry point on `bytes`: "err" | "ok" | "ok_but_<inconsistency>".
 fn decode(entry: &str, bytes: &[u8]) -> String {
     match entry {
@@ -178,9 +291,18 @@ fn decode(entry: &str, bytes: &[u8]) -> String {
                     match rawblock::SequencerBlock::decode(&*again).ok().and_then(|r| SequencerBlock::try_from_raw(r).ok()) {
                         Some(b2) if b2 == b => {
                             // the derived artefacts must be producible without panicking and verify again
-                            let (m, rs) = b.split_for_celestia();
+                            let (m, rs) = b.clone().split_for_celestia();
                             let ok = SubmittedMetadata::try_from_raw(m.into_raw()).is_ok() && rs.into_iter().all(|r| SubmittedRollupData::try_from_raw(r.into_raw()).is_ok());
-                            if ok { "ok".into() } else { "ok_but_split_artefacts_rejected".into() }
+                            let ids: Vec<_> = b.rollup_transactions().keys().copied().collect();
+                            if !ok {
+                                "ok_but_split_artefacts_rejected".into()
+                            } else if !rollup_proofs_ok(b.rollup_transactions().values(), *b.header().rollup_transactions_root()) {
+                                "ok_but_rollup_proof_does_not_verify".into()
+                            } else if !top_level_proofs_ok(*b.header().rollup_transactions_root(), b.rollup_transactions_proof(), &ids, b.rollup_ids_proof(), *b.header().data_hash()) {
+                                "ok_but_header_proof_does_not_verify".into()
+                            } else {
+                                "ok".into()
+                            }
                         }
                         Some(_) => "ok_but_roundtrip_differs".into(),
                         None => "ok_but_reencoding_rejected".into(),
@@ -195,7 +317,15 @@ fn decode(entry: &str, bytes: &[u8]) -> String {
                 Ok(b) => {
                     let again = b.clone().into_raw().encode_to_vec();
                     match rawblock::FilteredSequencerBlock::decode(&*again).ok().and_then(|r| FilteredSequencerBlock::try_from_raw(r).ok()) {
-                        Some(b2) if b2 == b => "ok".into(),
+                        Some(b2) if b2 == b => {
+                            if !rollup_proofs_ok(b.rollup_transactions().values(), *b.rollup_transactions_root()) {
+                                "ok_but_rollup_proof_does_not_verify".into()
+                            } else if !top_level_proofs_ok(*b.rollup_transactions_root(), b.rollup_transactions_proof(), b.all_rollup_ids(), b.rollup_ids_proof(), *b.header().data_hash()) {
+                                "ok_but_header_proof_does_not_verify".into()
+                            } else {
+                                "ok".into()
+                            }
+                        }
                         Some(_) => "ok_but_roundtrip_differs".into(),
                         None => "ok_but_reencoding_rejected".into(),
                     }
@@ -307,6 +437,8 @@ fn main() {
     for ((entry, op, outcome), n) in counts {
         writeln!(out, "{}", serde_json::json!({"kind": "decode_summary", "entry": entry, "operator": op, "outcome": outcome, "n": n})).unwrap();
     }
+    writeln!(out, "{}", serde_json::json!({"kind": "proof_reverification", "proofs_reverified": PROOFS_REVERIFIED.load(std::sync::atomic::Ordering::Relaxed),
+        "library_accepts_where_rfc9162_rejects": LIB_ACCEPTS_RFC_REJECTS.load(std::sync::atomic::Ordering::Relaxed)})).unwrap();
     writeln!(out, "{}", serde_json::json!({"kind": "end"})).unwrap();
     out.flush().unwrap();
 }
